@@ -238,7 +238,7 @@ func (t joinGroupRequestGroupProtocolV1) size() int32 {
 
 func (t joinGroupRequestGroupProtocolV1) writeTo(wb *writeBuffer) {
 	wb.writeString(t.ProtocolName)
-	wb.writeBytes(t.ProtocolMetadata)
+	wb.writeNonNullBytes(t.ProtocolMetadata)
 }
 
 type joinGroupRequest struct {
